@@ -107,7 +107,7 @@ theorem GlobalsOK.ext {h h' : Heap} (g : GlobalsOK h) (e : Ext h h') : GlobalsOK
   have h1 : aMinusOne < h.size := by simp only [aMinusOne, nGlobals] at *; omega
   exact ⟨Nat.le_trans g1 e.1, by rw [e.get h0]; exact g2, by rw [e.get h1]; exact g3⟩
 
-theorem GlobalsOK.sharedEmpty {h : Heap} (g : GlobalsOK h) :
+theorem GlobalsOK.shared {h : Heap} (g : GlobalsOK h) :
     VR h sharedEmpty ∧ viewAt h sharedEmpty = mkEmpty := by
   obtain ⟨g1, g2, g3⟩ := g
   refine ⟨⟨?_, ?_⟩, ?_⟩
@@ -115,29 +115,32 @@ theorem GlobalsOK.sharedEmpty {h : Heap} (g : GlobalsOK h) :
   · simp only [sharedEmpty, VO_some, aMinusOne, nGlobals] at *; omega
   · simp only [viewAt, sharedEmpty, Option.map_some, g2, g3, mkEmpty]
 
-/-! ### reading -/
+/-! ### reading: a read leaves the heap alone and returns the value that is there -/
 
-theorem loadB_tot (h : Heap) (p : Option Addr) :
-    Tot (loadB p) h (fun v h' => h' = h ∧ v = valO h p) := by
-  unfold loadB
-  split
-  · exact Tot.pure _ ⟨rfl, rfl⟩
-  · refine Tot.bind (Tot.load _) ?_
-    rintro v h1 _ ⟨rfl, rfl⟩
-    exact Tot.pure _ ⟨rfl, rfl⟩
+theorem Tot.bind_load {β : Type} {h : Heap} (a : Addr) {f : Int → HM β} {Q : β → Heap → Prop}
+    (hf : Tot (f (h.get a)) h Q) : Tot (IntervalHeap.load a >>= f) h Q := by
+  obtain ⟨b, h2, e2, x2, p2⟩ := hf
+  exact ⟨b, h2, by simp only [Bind.bind, StateT.bind, IntervalHeap.load, Option.bind_some, e2], x2, p2⟩
 
-theorem view_tot (h : Heap) (x : HIR) :
-    Tot (view x) h (fun X h' => h' = h ∧ X = viewAt h x) := by
-  unfold view
-  refine Tot.bind (loadB_tot h _) ?_
-  rintro lo h1 _ ⟨rfl, rfl⟩
-  refine Tot.bind (loadB_tot _ _) ?_
-  rintro hi h2 _ ⟨rfl, rfl⟩
-  exact Tot.pure _ ⟨rfl, rfl⟩
+theorem loadB_run (h : Heap) (p : Option Addr) : loadB p h = some (valO h p, h) := by
+  cases p <;> rfl
+
+theorem Tot.bind_loadB {β : Type} {h : Heap} (p : Option Addr) {f : Option Int → HM β}
+    {Q : β → Heap → Prop} (hf : Tot (f (valO h p)) h Q) : Tot (loadB p >>= f) h Q := by
+  obtain ⟨b, h2, e2, x2, p2⟩ := hf
+  exact ⟨b, h2, by simp only [Bind.bind, StateT.bind, loadB_run, Option.bind_some, e2], x2, p2⟩
+
+theorem view_run (h : Heap) (x : HIR) : view x h = some (viewAt h x, h) := by
+  simp only [view, Bind.bind, StateT.bind, loadB_run, Option.bind_some, Pure.pure, StateT.pure]
+  rfl
+
+theorem Tot.bind_view {β : Type} {h : Heap} (x : HIR) {f : IR → HM β} {Q : β → Heap → Prop}
+    (hf : Tot (f (viewAt h x)) h Q) : Tot (view x >>= f) h Q := by
+  obtain ⟨b, h2, e2, x2, p2⟩ := hf
+  exact ⟨b, h2, by simp only [Bind.bind, StateT.bind, view_run, Option.bind_some, e2], x2, p2⟩
 
 /-- tactic: `let X ← view x` at the head of a block -/
-macro "tot_view" : tactic =>
-  `(tactic| (refine Tot.bind (view_tot _ _) ?_; rintro _ _ _ ⟨rfl, rfl⟩))
+macro "tot_view" : tactic => `(tactic| refine Tot.bind_view _ ?_)
 
 /-! ### allocation helpers -/
 
@@ -186,8 +189,7 @@ theorem bigIntNewSet_tot (h : Heap) (p : Option Addr) :
   unfold bigIntNewSet
   split
   · exact Tot.pure _ ⟨by simp, rfl⟩
-  · refine Tot.bind (Tot.load _) ?_
-    rintro v h1 _ ⟨rfl, rfl⟩
+  · refine Tot.bind_load _ ?_
     refine Tot.bind (Tot.alloc _) ?_
     rintro z h2 x2 ⟨rfl, s2, g2⟩
     refine Tot.pure _ ⟨?_, ?_⟩
@@ -256,5 +258,331 @@ theorem unite_tot (h : Heap) (x y : HIR) (vx : VR h x) (vy : VR h y) :
         (fun h1 e => by rw [← valO_ext vx.2 e]; exact bigIntNewSet_tot h1 x.hi)
     · simp only [hd, if_false]
       exact pair_tot (allocOpt_tot _ _) (fun _ _ => allocOpt_tot _ _)
+
+/-! ### `biggerIntPair` -/
+
+/-- the value of a `biggerInt` -/
+def valBI (h : Heap) : HBI → BI
+  | .negInf => .negInf
+  | .posInf => .posInf
+  | .fin a => .fin (h.get a)
+
+def valP (h : Heap) (p : HBIP) : BIP := ⟨valBI h p.lo, valBI h p.hi⟩
+
+def VBI (h : Heap) (b : HBI) : Prop := ∀ a, b = .fin a → a < h.size
+def VP (h : Heap) (p : HBIP) : Prop := VBI h p.lo ∧ VBI h p.hi
+
+@[simp] theorem VBI_negInf (h : Heap) : VBI h .negInf := fun _ e => by cases e
+@[simp] theorem VBI_posInf (h : Heap) : VBI h .posInf := fun _ e => by cases e
+@[simp] theorem VBI_fin (h : Heap) (a : Addr) : VBI h (.fin a) ↔ a < h.size :=
+  ⟨fun v => v a rfl, fun v _ e => by cases e; exact v⟩
+
+theorem VBI.ext {h h' : Heap} {b : HBI} (v : VBI h b) (e : Ext h h') : VBI h' b :=
+  fun a ha => Nat.lt_of_lt_of_le (v a ha) e.1
+
+theorem VP.ext {h h' : Heap} {p : HBIP} (v : VP h p) (e : Ext h h') : VP h' p :=
+  ⟨v.1.ext e, v.2.ext e⟩
+
+theorem valBI_ext {h h' : Heap} {b : HBI} (v : VBI h b) (e : Ext h h') :
+    valBI h' b = valBI h b := by
+  cases b with
+  | negInf => rfl
+  | posInf => rfl
+  | fin a => simp only [valBI, e.get (v a rfl)]
+
+theorem valP_ext {h h' : Heap} {p : HBIP} (v : VP h p) (e : Ext h h') : valP h' p = valP h p := by
+  simp only [valP, valBI_ext v.1 e, valBI_ext v.2 e]
+
+theorem viewBI_run (h : Heap) (b : HBI) : viewBI b h = some (valBI h b, h) := by
+  cases b <;> rfl
+
+theorem Tot.bind_viewBI {β : Type} {h : Heap} (b : HBI) {f : BI → HM β} {Q : β → Heap → Prop}
+    (hf : Tot (f (valBI h b)) h Q) : Tot (viewBI b >>= f) h Q := by
+  obtain ⟨r, h2, e2, x2, p2⟩ := hf
+  exact ⟨r, h2, by simp only [Bind.bind, StateT.bind, viewBI_run, Option.bind_some, e2], x2, p2⟩
+
+/-- a pair whose pointers are valid and whose value is `v` -/
+def PairIs (v : BIP) (r : HBIP) (h' : Heap) : Prop := VP h' r ∧ valP h' r = v
+
+/-- a candidate bound whose pointer is valid and whose value is `v` -/
+def BIIs (v : BI) (b : HBI) (h' : Heap) : Prop := VBI h' b ∧ valBI h' b = v
+
+theorem takeLo_eq (p : BIP) (y : BI) :
+    p.lowerMin y = if takeLo p.lo y then { p with lo := y } else p := by
+  unfold BIP.lowerMin takeLo
+  cases p.lo <;> cases y <;> rfl
+
+theorem takeHi_eq (p : BIP) (y : BI) :
+    p.raiseMax y = if takeHi p.hi y then { p with hi := y } else p := by
+  unfold BIP.raiseMax takeHi
+  cases p.hi <;> cases y <;> rfl
+
+theorem lowerMin_tot {h : Heap} {p : HBIP} {y : HBI} (vp : VP h p) (vy : VBI h y) :
+    Tot (lowerMin p y) h (PairIs ((valP h p).lowerMin (valBI h y))) := by
+  unfold lowerMin
+  refine Tot.bind_viewBI _ ?_
+  refine Tot.bind_viewBI _ ?_
+  refine Tot.pure _ ?_
+  rw [takeLo_eq]
+  show PairIs (if takeLo (valBI h p.lo) (valBI h y) = true then _ else _) _ h
+  split
+  · exact ⟨⟨vy, vp.2⟩, rfl⟩
+  · exact ⟨vp, rfl⟩
+
+theorem raiseMax_tot {h : Heap} {p : HBIP} {y : HBI} (vp : VP h p) (vy : VBI h y) :
+    Tot (raiseMax p y) h (PairIs ((valP h p).raiseMax (valBI h y))) := by
+  unfold raiseMax
+  refine Tot.bind_viewBI _ ?_
+  refine Tot.bind_viewBI _ ?_
+  refine Tot.pure _ ?_
+  rw [takeHi_eq]
+  show PairIs (if takeHi (valBI h p.hi) (valBI h y) = true then _ else _) _ h
+  split
+  · exact ⟨⟨vp.1, vy⟩, rfl⟩
+  · exact ⟨vp, rfl⟩
+
+theorem toIntRange_tot {h : Heap} {p : HBIP} (vp : VP h p) :
+    Tot (toIntRange p) h (RangeIs (valP h p).toIR) := by
+  obtain ⟨lo, hi⟩ := p
+  obtain ⟨v1, v2⟩ := vp
+  cases lo <;> cases hi <;>
+    first
+    | exact makeEmptyRange_tot h
+    | (refine Tot.pure _ ⟨⟨?_, ?_⟩, rfl⟩ <;> simp_all)
+
+theorem copyBI_tot (h : Heap) (p : Option Addr) (inf : HBI) (hinf : inf = .negInf ∨ inf = .posInf) :
+    Tot (copyBI p inf) h (BIIs (match valO h p with | some v => .fin v | none => valBI h inf)) := by
+  unfold copyBI
+  cases p with
+  | none =>
+    refine Tot.pure _ ⟨?_, rfl⟩
+    rcases hinf with rfl | rfl <;> simp
+  | some a =>
+    refine Tot.bind_load _ ?_
+    refine Tot.bind (Tot.alloc _) ?_
+    rintro z h2 x2 ⟨rfl, s2, g2⟩
+    refine Tot.pure _ ⟨?_, ?_⟩
+    · simp only [VBI_fin]; omega
+    · simp only [valBI, g2, valO, Option.map_some]
+
+theorem fromIntRange_tot (h : Heap) (y : HIR) (vy : VR h y) :
+    Tot (fromIntRange y) h (PairIs (BIP.fromIR (viewAt h y))) := by
+  unfold fromIntRange
+  refine Tot.bind (copyBI_tot h y.lo .negInf (Or.inl rfl)) ?_
+  rintro lo h1 x1 ⟨vlo, elo⟩
+  refine Tot.bind (copyBI_tot h1 y.hi .posInf (Or.inr rfl)) ?_
+  rintro hi h2 x2 ⟨vhi, ehi⟩
+  refine Tot.pure _ ⟨⟨vlo.ext x2, vhi⟩, ?_⟩
+  simp only [valP, valBI_ext vlo x2, elo, ehi, valO_ext vy.2 x1, BIP.fromIR, viewAt_eq]
+  congr 1
+
+theorem zeroPair_tot (h : Heap) : Tot zeroPair h (PairIs ⟨.fin 0, .fin 0⟩) := by
+  unfold zeroPair
+  refine Tot.bind (Tot.alloc _) ?_
+  rintro a h1 x1 ⟨rfl, s1, g1⟩
+  refine Tot.bind (Tot.alloc _) ?_
+  rintro b h2 x2 ⟨rfl, s2, g2⟩
+  refine Tot.pure _ ⟨⟨?_, ?_⟩, ?_⟩
+  · simp only [VBI_fin]; omega
+  · simp only [VBI_fin]; omega
+  · have : h2.get h.size = 0 := by rw [x2.get (by omega)]; exact g1
+    simp only [valP, valBI, this, g2]
+
+theorem combine_tot (h : Heap) (f : Int → Int → Int) (p q : Option Addr) :
+    Tot (combine f p q) h (BIIs (.fin (f ((valO h p).getD 0) ((valO h q).getD 0)))) := by
+  unfold combine
+  refine Tot.bind_loadB _ ?_
+  refine Tot.bind_loadB _ ?_
+  refine Tot.bind (Tot.alloc _) ?_
+  rintro z h2 x2 ⟨rfl, s2, g2⟩
+  refine Tot.pure _ ⟨?_, ?_⟩
+  · simp only [VBI_fin]; omega
+  · simp only [valBI, g2]
+
+theorem newBI_tot (h : Heap) (v : Int) : Tot (newBI v) h (BIIs (.fin v)) := by
+  unfold newBI
+  refine Tot.bind (Tot.alloc _) ?_
+  rintro z h2 x2 ⟨rfl, s2, g2⟩
+  refine Tot.pure _ ⟨?_, ?_⟩
+  · simp only [VBI_fin]; omega
+  · simp only [valBI, g2]
+
+theorem stepLo_tot {h : Heap} {ret : HBIP} {b : HM HBI} {B : BI} (vr : VP h ret)
+    (hb : Tot b h (BIIs B)) : Tot (stepLo ret b) h (PairIs ((valP h ret).lowerMin B)) := by
+  unfold stepLo
+  refine Tot.bind hb ?_
+  rintro v h1 x1 ⟨vv, ev⟩
+  have := lowerMin_tot (vr.ext x1) vv
+  rw [valP_ext vr x1, ev] at this
+  exact this
+
+theorem stepHi_tot {h : Heap} {ret : HBIP} {b : HM HBI} {B : BI} (vr : VP h ret)
+    (hb : Tot b h (BIIs B)) : Tot (stepHi ret b) h (PairIs ((valP h ret).raiseMax B)) := by
+  unfold stepHi
+  refine Tot.bind hb ?_
+  rintro v h1 x1 ⟨vv, ev⟩
+  have := raiseMax_tot (vr.ext x1) vv
+  rw [valP_ext vr x1, ev] at this
+  exact this
+
+theorem choose_tot {h : Heap} (g : Bool) {alt c : HM HBI} {A C : BI} (ha : Tot alt h (BIIs A))
+    (hc : Tot c h (BIIs C)) : Tot (choose g alt c) h (BIIs (if g then A else C)) := by
+  unfold choose
+  cases g
+  · simpa using hc
+  · simpa using ha
+
+theorem posInf_tot (h : Heap) : Tot (Pure.pure HBI.posInf : HM HBI) h (BIIs .posInf) :=
+  Tot.pure _ ⟨by simp, rfl⟩
+
+theorem negInf_tot (h : Heap) : Tot (Pure.pure HBI.negInf : HM HBI) h (BIIs .negInf) :=
+  Tot.pure _ ⟨by simp, rfl⟩
+
+/-! ### the sign-definite blocks: same values as the blocks of the value model -/
+
+section blocks
+variable {h : Heap} {a b : HIR} {ret : HBIP} (va : VR h a) (vb : VR h b) (vr : VP h ret)
+include va vb vr
+
+theorem mulNN_tot (f : Int → Int → Int) :
+    Tot (mulNN f a b ret) h
+      (PairIs (Interval.mulNN f (viewAt h a) (viewAt h b) (valP h ret))) := by
+  unfold mulNN
+  refine Tot.bind (stepLo_tot vr (combine_tot h f _ _)) ?_
+  rintro r1 h1 x1 ⟨v1, e1⟩
+  refine Tot.mono (stepHi_tot v1 (choose_tot _ (posInf_tot h1) (combine_tot h1 f a.lo b.lo))) ?_
+  rintro r h2 x2 ⟨v2, e2⟩
+  refine ⟨v2, ?_⟩
+  rw [e2, e1, valO_ext va.1 x1, valO_ext vb.1 x1]
+  simp only [Interval.mulNN, viewAt_eq, valO]
+  cases a.lo <;> cases b.lo <;> simp
+
+theorem mulNP_tot (f : Int → Int → Int) :
+    Tot (mulNP f a b ret) h
+      (PairIs (Interval.mulNP f (viewAt h a) (viewAt h b) (valP h ret))) := by
+  unfold mulNP
+  refine Tot.bind (stepLo_tot vr (choose_tot _ (negInf_tot h) (combine_tot h f a.lo b.hi))) ?_
+  rintro r1 h1 x1 ⟨v1, e1⟩
+  refine Tot.mono (stepHi_tot v1 (combine_tot h1 f a.hi b.lo)) ?_
+  rintro r h2 x2 ⟨v2, e2⟩
+  refine ⟨v2, ?_⟩
+  rw [e2, e1]
+  simp only [valO_ext va.1 x1, valO_ext va.2 x1, valO_ext vb.1 x1, valO_ext vb.2 x1]
+  simp only [Interval.mulNP, viewAt_eq, valO]
+  cases a.lo <;> cases a.hi <;> cases b.lo <;> cases b.hi <;> simp
+
+theorem mulPN_tot (f : Int → Int → Int) :
+    Tot (mulPN f a b ret) h
+      (PairIs (Interval.mulPN f (viewAt h a) (viewAt h b) (valP h ret))) := by
+  unfold mulPN
+  refine Tot.bind (stepLo_tot vr (choose_tot _ (negInf_tot h) (combine_tot h f a.hi b.lo))) ?_
+  rintro r1 h1 x1 ⟨v1, e1⟩
+  refine Tot.mono (stepHi_tot v1 (combine_tot h1 f a.lo b.hi)) ?_
+  rintro r h2 x2 ⟨v2, e2⟩
+  refine ⟨v2, ?_⟩
+  rw [e2, e1]
+  simp only [valO_ext va.1 x1, valO_ext va.2 x1, valO_ext vb.1 x1, valO_ext vb.2 x1]
+  simp only [Interval.mulPN, viewAt_eq, valO]
+  cases a.lo <;> cases a.hi <;> cases b.lo <;> cases b.hi <;> simp
+
+theorem mulPP_tot (f : Int → Int → Int) :
+    Tot (mulPP f a b ret) h
+      (PairIs (Interval.mulPP f (viewAt h a) (viewAt h b) (valP h ret))) := by
+  unfold mulPP
+  refine Tot.bind (stepLo_tot vr (combine_tot h f a.lo b.lo)) ?_
+  rintro r1 h1 x1 ⟨v1, e1⟩
+  refine Tot.mono (stepHi_tot v1 (choose_tot _ (posInf_tot h1) (combine_tot h1 f a.hi b.hi))) ?_
+  rintro r h2 x2 ⟨v2, e2⟩
+  refine ⟨v2, ?_⟩
+  rw [e2, e1]
+  simp only [valO_ext va.1 x1, valO_ext va.2 x1, valO_ext vb.1 x1, valO_ext vb.2 x1]
+  simp only [Interval.mulPP, viewAt_eq, valO]
+  cases a.lo <;> cases a.hi <;> cases b.lo <;> cases b.hi <;> simp
+
+theorem quoNN_tot :
+    Tot (quoNN a b ret) h
+      (PairIs (Interval.quoNN (viewAt h a) (viewAt h b) (valP h ret))) := by
+  unfold quoNN
+  refine Tot.bind (stepHi_tot vr (choose_tot _ (posInf_tot h) (combine_tot h bigQuo a.lo b.hi))) ?_
+  rintro r1 h1 x1 ⟨v1, e1⟩
+  refine Tot.mono (stepLo_tot v1 (choose_tot _ (newBI_tot h1 0) (combine_tot h1 bigQuo a.hi b.lo))) ?_
+  rintro r h2 x2 ⟨v2, e2⟩
+  refine ⟨v2, ?_⟩
+  rw [e2, e1]
+  simp only [valO_ext va.1 x1, valO_ext va.2 x1, valO_ext vb.1 x1, valO_ext vb.2 x1]
+  simp only [Interval.quoNN, viewAt_eq, valO]
+  cases a.lo <;> cases a.hi <;> cases b.lo <;> cases b.hi <;> simp
+
+theorem quoNP_tot :
+    Tot (quoNP a b ret) h
+      (PairIs (Interval.quoNP (viewAt h a) (viewAt h b) (valP h ret))) := by
+  unfold quoNP
+  refine Tot.bind (stepLo_tot vr (choose_tot _ (negInf_tot h) (combine_tot h bigQuo a.lo b.lo))) ?_
+  rintro r1 h1 x1 ⟨v1, e1⟩
+  refine Tot.mono (stepHi_tot v1 (choose_tot _ (newBI_tot h1 0) (combine_tot h1 bigQuo a.hi b.hi))) ?_
+  rintro r h2 x2 ⟨v2, e2⟩
+  refine ⟨v2, ?_⟩
+  rw [e2, e1]
+  simp only [valO_ext va.1 x1, valO_ext va.2 x1, valO_ext vb.1 x1, valO_ext vb.2 x1]
+  simp only [Interval.quoNP, viewAt_eq, valO]
+  cases a.lo <;> cases a.hi <;> cases b.lo <;> cases b.hi <;> simp
+
+theorem quoPN_tot :
+    Tot (quoPN a b ret) h
+      (PairIs (Interval.quoPN (viewAt h a) (viewAt h b) (valP h ret))) := by
+  unfold quoPN
+  refine Tot.bind (stepLo_tot vr (choose_tot _ (negInf_tot h) (combine_tot h bigQuo a.hi b.hi))) ?_
+  rintro r1 h1 x1 ⟨v1, e1⟩
+  refine Tot.mono (stepHi_tot v1 (choose_tot _ (newBI_tot h1 0) (combine_tot h1 bigQuo a.lo b.lo))) ?_
+  rintro r h2 x2 ⟨v2, e2⟩
+  refine ⟨v2, ?_⟩
+  rw [e2, e1]
+  simp only [valO_ext va.1 x1, valO_ext va.2 x1, valO_ext vb.1 x1, valO_ext vb.2 x1]
+  simp only [Interval.quoPN, viewAt_eq, valO]
+  cases a.lo <;> cases a.hi <;> cases b.lo <;> cases b.hi <;> simp
+
+theorem quoPP_tot :
+    Tot (quoPP a b ret) h
+      (PairIs (Interval.quoPP (viewAt h a) (viewAt h b) (valP h ret))) := by
+  unfold quoPP
+  refine Tot.bind (stepHi_tot vr (choose_tot _ (posInf_tot h) (combine_tot h bigQuo a.hi b.lo))) ?_
+  rintro r1 h1 x1 ⟨v1, e1⟩
+  refine Tot.mono (stepLo_tot v1 (choose_tot _ (newBI_tot h1 0) (combine_tot h1 bigQuo a.lo b.hi))) ?_
+  rintro r h2 x2 ⟨v2, e2⟩
+  refine ⟨v2, ?_⟩
+  rw [e2, e1]
+  simp only [valO_ext va.1 x1, valO_ext va.2 x1, valO_ext vb.1 x1, valO_ext vb.2 x1]
+  simp only [Interval.quoPP, viewAt_eq, valO]
+  cases a.lo <;> cases a.hi <;> cases b.lo <;> cases b.hi <;> simp
+
+theorem rshN_tot :
+    Tot (rshN a b ret) h
+      (PairIs (Interval.rshN (viewAt h a) (viewAt h b) (valP h ret))) := by
+  unfold rshN
+  refine Tot.bind (stepLo_tot vr (choose_tot _ (negInf_tot h) (combine_tot h bigRsh a.lo b.lo))) ?_
+  rintro r1 h1 x1 ⟨v1, e1⟩
+  refine Tot.mono (stepHi_tot v1 (choose_tot _ (newBI_tot h1 (-1)) (combine_tot h1 bigRsh a.hi b.hi))) ?_
+  rintro r h2 x2 ⟨v2, e2⟩
+  refine ⟨v2, ?_⟩
+  rw [e2, e1]
+  simp only [valO_ext va.1 x1, valO_ext va.2 x1, valO_ext vb.1 x1, valO_ext vb.2 x1]
+  simp only [Interval.rshN, viewAt_eq, valO]
+  cases a.lo <;> cases a.hi <;> cases b.lo <;> cases b.hi <;> simp
+
+theorem rshP_tot :
+    Tot (rshP a b ret) h
+      (PairIs (Interval.rshP (viewAt h a) (viewAt h b) (valP h ret))) := by
+  unfold rshP
+  refine Tot.bind (stepLo_tot vr (choose_tot _ (newBI_tot h 0) (combine_tot h bigRsh a.lo b.hi))) ?_
+  rintro r1 h1 x1 ⟨v1, e1⟩
+  refine Tot.mono (stepHi_tot v1 (choose_tot _ (posInf_tot h1) (combine_tot h1 bigRsh a.hi b.lo))) ?_
+  rintro r h2 x2 ⟨v2, e2⟩
+  refine ⟨v2, ?_⟩
+  rw [e2, e1]
+  simp only [valO_ext va.1 x1, valO_ext va.2 x1, valO_ext vb.1 x1, valO_ext vb.2 x1]
+  simp only [Interval.rshP, viewAt_eq, valO]
+  cases a.lo <;> cases a.hi <;> cases b.lo <;> cases b.hi <;> simp
+
+end blocks
 
 end WuffsVerif.IntervalHeap
